@@ -1,2 +1,4 @@
 import Proofs.Props.C12
 import Proofs.Props.C13
+import Proofs.Props.C05
+import Proofs.Props.C04
